@@ -60,6 +60,9 @@ const (
 	KindSched uint8 = 0
 	KindMap   uint8 = 1
 	KindUser  uint8 = 2
+	// KindSelect: which of several ready communications a select statement takes (free, like a
+	// switch at a blocking point)
+	KindSelect uint8 = 3
 )
 
 type thread struct {
@@ -559,6 +562,92 @@ func ExtResumeSel(me int32, c ChanRef) {
 		}
 	}
 	ExtResume(me)
+}
+
+// SelectChoose decides a select statement without default whose communications are all named:
+// it returns the index of a communication that can proceed now - by the scheduler's bookkeeping:
+// buffered data or room, a closed channel, a parked partner - or -1 if none can.  With several
+// candidates the Go runtime would take one at random; here it is a choice point of the explorer.
+// The chosen communication is then performed as an operation of its own (ChanRecv / ChanSender, which
+// park properly should the bookkeeping have been wrong).
+//
+//go:norace
+func SelectChoose(chs ...ChanRef) int {
+	if g.active == 0 {
+		return -1
+	}
+	var ready [16]int32
+	n := int32(0)
+	for i, c := range chs {
+		if i >= len(ready) {
+			break
+		}
+		if c.P != nil && chanReady(c) {
+			ready[n] = int32(i)
+			n++
+		}
+	}
+	switch n {
+	case 0:
+		return -1
+	case 1:
+		return int(ready[0])
+	}
+	if !g.cfg.Sched {
+		return int(ready[0])
+	}
+	return int(ready[choose(KindSelect, n, false, g.cur)])
+}
+
+// hchanHead mirrors the first words of the runtime's channel header (qcount, dataqsiz, buf,
+// elemsize, closed): read-only, to tell whether an operation can proceed.
+type hchanHead struct {
+	qcount   uint
+	dataqsiz uint
+	buf      unsafe.Pointer
+	elemsize uint16
+	closed   uint32
+}
+
+// mirrorOK: the mirror above is checked once against channels of known content; if the runtime's
+// layout is another one, selects are left to the runtime (SelectChoose answers -1).
+var mirrorOK = func() bool {
+	a := make(chan int32, 3)
+	a <- 1
+	a <- 2
+	b := make(chan struct{})
+	close(b)
+	ha, hb := (*hchanHead)(chanPtr(a)), (*hchanHead)(chanPtr(b))
+	return ha.qcount == 2 && ha.dataqsiz == 3 && ha.closed == 0 && ha.elemsize == 4 && hb.qcount == 0 && hb.dataqsiz == 0 && hb.closed == 1
+}()
+
+//go:norace
+func chanReady(c ChanRef) bool {
+	if !mirrorOK {
+		return false
+	}
+	h := (*hchanHead)(c.P)
+	if h.closed != 0 {
+		return true
+	}
+	want := DirSend
+	if c.Dir == DirSend {
+		if h.qcount < h.dataqsiz {
+			return true
+		}
+		want = DirRecv
+	} else if h.qcount > 0 {
+		return true
+	}
+	for i := int32(0); i < nparked; i++ {
+		r := &parked[i]
+		for k := int32(0); k < r.n; k++ {
+			if r.ch[k].P == c.P && r.ch[k].Dir == want {
+				return true
+			}
+		}
+	}
+	return false
 }
 
 // SelRecv / SelSend name a channel of a select statement for ExtBlock.
